@@ -130,6 +130,16 @@ REJECT = {
     "shape_too_few_axes": lambda: DimArray(V, axes=[X2], dims=["x"]),
     "shape_too_many_axes": lambda: DimArray(V, axes=[X2, Y3, [1]], dims=["x", "y", "z"]),
     "shape_1d": lambda: DimArray([1, 2, 3], axes=[[1, 2]], dims=["x"]),
+    # more dimension names than dimensions (names only, no labels): the surplus must not be dropped silently
+    "dims_only_too_many": lambda: DimArray(V, dims=["x", "y", "z"]),
+    "names_as_axes_too_many": lambda: DimArray(V, axes=["x", "y", "z"]),
+    "dims_only_1d_too_many": lambda: DimArray([1, 2, 3], dims=["x", "y"]),
+    "dims_only_0d_too_many": lambda: DimArray(3.0, dims=["x"]),
+    "zeros_dims_shape_conflict": lambda: da.zeros(dims=("a", "b"), shape=(2,)),
+    # an axis replaced by one that carries the NAME of another axis of the same array / Dataset
+    "axes_setitem_dup_name": lambda: DimArray(V, axes=[X2, Y3], dims=["x", "y"]).axes.__setitem__(0, Axis(np.array(X2), "y")),
+    "axes_setitem_dup_name_by_name": lambda: DimArray(V, axes=[X2, Y3], dims=["x", "y"]).axes.__setitem__("y", Axis(np.array(Y3, dtype=object), "x")),
+    "ds_axes_setitem_dup_name": lambda: Dataset(v=DimArray(V, axes=[X2, Y3], dims=["x", "y"])).axes.__setitem__("x", Axis(np.array(X2), "y")),
     "shape_lists_of_lists": lambda: DimArray([[1, 2, 3], [4, 5, 6]], axes=[[1, 2, 3], [1, 2]]),
     "dup_dims": lambda: DimArray(V, axes=[X2, Y3], dims=["x", "x"]),
     "dup_pairs": lambda: DimArray(V, axes=[("x", X2), ("x", Y3)]),
